@@ -150,7 +150,9 @@ def t_fixed(ctx):
     from vlib import rsa as R
     ids = ['', '-', 'Notch', 'a' * 20, 'é世\U0001f600', '\x00', ' ']
     secrets = [b'', bytes(16), b'\xff' * 16, bytes(range(16))]
-    keys = [b'', R.key(1024)['der'], R.key(2048)['der'], b'\x00' * 3]
+    keys = [b'', R.key(1024)['der'], R.key(2048)['der'], b'\x00' * 3] + \
+        [v for b in (1024, 2048)
+         for k_, v in sorted(R.key_encodings(b).items()) if k_ != 'spki']
     for i in ids:
         for s in secrets:
             for k in keys:
@@ -194,8 +196,10 @@ def t_random(ctx, n):
         'secret': st.one_of(st.binary(min_size=16, max_size=16),
                             st.binary(max_size=64)),
         'key': st.one_of(st.binary(max_size=300),
-                         st.sampled_from([rsa.key(1024)['der'],
-                                          rsa.key(2048)['der']]))})
+                         st.sampled_from(
+                             [rsa.key(1024)['der'], rsa.key(2048)['der']] +
+                             sorted(rsa.key_encodings(1024).values()) +
+                             sorted(rsa.key_encodings(2048).values())))})
 
     def body(c, case):
         triple_case(c, case)
